@@ -427,7 +427,7 @@ func (c *EvalCtx) local(name string) (TVal, bool) {
 			if !ok {
 				return TVal{}, false
 			}
-			v := c.fr.load(c.st, ObjAddr{Ref: r.T, Elem: elem, Fresh: true}, elem)
+			v := c.fr.load(c.st, ObjAddr{Ref: r.T, Elem: elem, NonNil: true}, elem)
 			return TVal{Val: v, Type: elem}, true
 		}
 	}
